@@ -55,7 +55,8 @@ def menu(k1s, k2s, tier):
         if all(isinstance(k, str) for k, _ in m):
             ops.append(("update_kw", m))
     for variant in ("same_upper", "same_lower", "same_caseless", "same_reversed_mixed", "same_dup_variants",
-                    "same_pairs_dup_variants", "value_changed", "extra_key", "missing_key", "extra_key_dup_variants"):
+                    "same_pairs_dup_variants", "value_changed", "extra_key", "missing_key", "extra_key_dup_variants",
+                    "same_userdict_lower", "same_chainmap_mixed", "same_mappingproxy_lower", "userdict_value_changed"):
         ops += [("eqv", variant), ("nev", variant)]
     return ops
 
@@ -88,6 +89,15 @@ def other_mapping(variant, items, cls):
         return {k.lower(): v for k, v in items}, True
     if variant == "same_caseless":
         return CaselessDict({k.lower(): v for k, v in items}), True
+    if variant == "same_userdict_lower":  # mappings that are NOT dict subclasses
+        return collections.UserDict({k.lower(): v for k, v in items}), True
+    if variant == "same_chainmap_mixed":
+        return collections.ChainMap({k.capitalize(): v for k, v in items[:1]}, {k.lower(): v for k, v in items[1:]}), True
+    if variant == "same_mappingproxy_lower":
+        import types
+        return types.MappingProxyType({k.lower(): v for k, v in items}), True
+    if variant == "userdict_value_changed":
+        return collections.UserDict([(k.lower(), ("changed", repr(v))) for k, v in items] or [("zz", 0)]), False
     if variant == "same_reversed_mixed":
         return collections.OrderedDict((k.capitalize(), v) for k, v in reversed(items)), True
     if variant == "same_dup_variants":
